@@ -742,6 +742,8 @@ func guarded(in []byte) (inner []byte, intact func() bool) {
 // withVerboseLogging runs fn with the library logger at Trace level (output
 // discarded), then restores the level. The level is an exported knob of the
 // library (logger.SetLogLevel); what the functions compute must not depend on it.
+func init() { core.VerboseHook = withVerboseLogging }
+
 func withVerboseLogging(fn func()) {
 	lg := logger.GetLogger()
 	old := lg.GetLevel()
